@@ -679,6 +679,17 @@ func (vc *VC) execConvert(fr *Frame, st *State, x *ssa.Convert) {
 			return
 		}
 		mod, signed, _ := intModulus(to)
+		if vc.fc != nil && vc.fc.Arith == "math" && mod == "18446744073709551616" {
+			// declared 'arith math': 64-bit values stay far inside their range, conversions between
+			// int / int64 / uint64 are the identity (assumption A-INT, recorded by arith())
+			vc.assume("A-INT: conversions between 64-bit integer types treated as the identity in " + vc.fc.Key + " (declared 'arith math')")
+			if _, fromSigned, _ := intModulus(from); fromSigned && !signed {
+				vc.oblige(st, "overflow", fmt.Sprintf("%sconv.%d", fnTagDot(fr), vc.ordinal("convneg")), "signed value converted to an unsigned type is not negative",
+					fmt.Sprintf("(>= %s 0)", v), x.Pos())
+			}
+			fr.env[x] = v
+			return
+		}
 		if signed {
 			vc.bind(fr, x, "Int", fmt.Sprintf("(wraps %s %s)", v, mod))
 		} else {
